@@ -21,7 +21,7 @@ from __future__ import annotations
 
 from typing import Optional, Union, Sequence, List
 
-import random
+import hashlib
 
 from edb.common import ast as ast_visitor
 
@@ -29,6 +29,7 @@ from edb.edgeql import qltypes
 from edb.ir import ast as irast
 from edb.ir import utils as irutils
 from edb.pgsql import ast as pgast
+from edb.pgsql import codegen as pgcodegen
 from edb.pgsql import types as pg_types
 
 from . import astutils
@@ -471,9 +472,19 @@ def scan_check_ctes(
     # reference them in the where clause of an UPDATE to a dummy
     # table.
 
-    # Add a big random number, so that different queries should try to
-    # access different "rows" of the table, in case that matters.
-    base_int = random.randint(0, (1 << 60) - 1)
+    # Add a big pseudo-random number, so that different queries should
+    # try to access different "rows" of the table, in case that matters.
+    # It is derived from the checks themselves rather than drawn at
+    # random, so that compiling the same query again yields the same SQL
+    # (and hence the same statement hash).
+    checks_digest = hashlib.blake2b(
+        '\n'.join(
+            pgcodegen.generate_source(check_cte.query)
+            for check_cte in check_ctes
+        ).encode('utf-8'),
+        digest_size=8,
+    ).digest()
+    base_int = int.from_bytes(checks_digest, 'big') & ((1 << 60) - 1)
     val: pgast.BaseExpr = pgast.NumericConstant(val=str(base_int))
 
     for check_cte in check_ctes:
